@@ -88,9 +88,28 @@ def one_case(case, acc):
         acc.nontrivial(case)
 
 
+def many_imports_inside_the_subject_layer(rnd, acc):
+    """Magnitudes: 100-300 imports that stay inside the subject layer (they never count) around the few that leave it."""
+    n = rnd.choice([99, 100, 101, 150, 300])
+    mods = ["r", "r.ui", "r.ui.main", "r.widgets", "r.model", "r.zzz", "r.aaa"] + [f"r.widgets.w{i:03d}" for i in range(n)]
+    imps = [("r.ui.main", f"r.widgets.w{i:03d}") for i in range(n)]
+    extra = rnd.sample([("r.ui.main", "r.model"), ("r.ui.main", "r.zzz"), ("r.ui.main", "r.aaa"), ("r.model", "r.ui.main"), ("r.zzz", "r.widgets.w001"), ("r.widgets.w000", "r.model")], rnd.randint(0, 3))
+    imps = sorted(set(imps + extra))
+    layers = {"ui": ["r.ui", "r.widgets"], "model": ["r.model"]}
+    kinds = {"ui": "named", "model": "named"}
+    for verb in ("should", "should_only", "should_not"):
+        for d in ("import", "be"):
+            for exc in (False, True):
+                cfg = {"verb": verb, "dir": d, "exc": exc, "anything": False, "subject": "ui", "objects": ["model"]}
+                one_case({"kind": "layer", "mods": mods, "imps": imps, "layers": layers, "kinds": kinds, "cfg": cfg, "str_form": False}, acc)
+    acc.count("layers_with_100_or_more_internal_imports")
+
+
 def run_shard(spec, acc):
     rnd = random.Random(spec["seed"])
     for i in range(spec["n"]):
+        if i % 400 == 7:
+            many_imports_inside_the_subject_layer(rnd, acc)
         if i % 25 == 0:
             # one LayeredArchitecture / LayerRule object applied to two architectures with different module sets (a regex
             # layer matches a module only one of them has): every application is judged by R-LAYER on its own graph
@@ -169,7 +188,7 @@ def run_shard(spec, acc):
                     break
         if rnd.random() < 0.3:
             # layer NAMES are free text: prefixes of each other, case twins, dots, a module's name, the word "layer"
-            pool = ["L1", "L10", "L100", "data", "database", "Data", "a.b", "r.a", "layer", "x y", "web-ui", "größe"]
+            pool = ["L1", "L10", "L100", "data", "database", "Data", "a.b", "r.a", "layer", "x y", "web-ui", "größe", "layer one", "Layer one", "my layer x"]
             new_names = dict(zip(list(layers), rnd.sample(pool, len(layers))))
             layers = {new_names[k]: v for k, v in layers.items()}
             kinds = {new_names[k]: v for k, v in kinds.items()}
@@ -224,6 +243,8 @@ def floors(acc, tier):
     for c in ("forced_intra_layer_only", "forced_unmentioned_regex_layer", "forced_mixed_object_layers", "forced_nested_list_with_later_sibling", "forced_unmentioned_regex_layer_without_match", "adversarial_layer_names"):
         if acc.counters[c] < 50:
             why.append(f"{c}: only {acc.counters[c]}")
+    if acc.counters["layers_with_100_or_more_internal_imports"] < 5:
+        why.append("too few layers with 100+ internal imports")
     if acc.counters["layer_rule_objects_applied_to_two_architectures"] < 20:
         why.append("too few layer rule objects applied to two different architectures")
     if acc.counters["c05_judged_nested_layer_lists"] < 200:
